@@ -5,6 +5,12 @@ in MANIFEST.json: no listed property is claimed with it).
 
 ModelState.tla - emg3d.Model: validation on construction and assignment (the
 discrete clause of C14), anisotropy case, rejected assignments change nothing.
+
+EdgeAvg.tla - the cell <-> edge maps of the sensitivity machinery (discrete
+ingredients of C07 / C08): the matrix of maps.interp_edges_to_vol_averages
+(gradient) and of discretize's get_edge_inner_product_deriv (jvec), extracted
+from the real functions on integer-width grids, are checked by TLC against
+the V/4 reference and against each other (transposes on interior edges).
 """
 import json
 import multiprocessing as mp
@@ -80,6 +86,98 @@ def _drive(seed):
     return {"mapping": mapping, "ev": ev, "seed": seed}
 
 
+def _edgeavg(job):
+    """Matrices of the gradient's edge->cell map and of jvec's cell->edge
+    map, as rows per (direction, cell)."""
+    import numpy as np
+    import emg3d
+    from emg3d import maps
+    h, seed = job
+    grid = emg3d.TensorMesh([np.array(a, dtype=float) for a in h], (0, 0, 0))
+    nx, ny, nz = grid.shape_cells
+    vol = grid.cell_volumes.reshape(grid.shape_cells, order='F')
+    shp = [(nx, ny+1, nz+1), (nx+1, ny, nz+1), (nx+1, ny+1, nz)]
+    notes = []
+    rows_c = {}
+    for c in range(3):
+        for idx in np.ndindex(*shp[c]):
+            e = [np.zeros(s_) for s_ in shp]
+            e[c][idx] = 1.0
+            o = [np.zeros(grid.shape_cells) for _ in range(3)]
+            maps.interp_edges_to_vol_averages(
+                ex=e[0], ey=e[1], ez=e[2], volumes=vol,
+                ox=o[0], oy=o[1], oz=o[2])
+            for cc in range(3):
+                for cell in zip(*np.nonzero(o[cc])):
+                    v4 = 4*o[cc][cell]
+                    if v4 != int(v4):
+                        notes.append("entry is not a multiple of 1/4")
+                    rows_c.setdefault((cc+1, *map(int, cell)), []).append(
+                        [c+1, *map(int, idx), int(round(v4))])
+    # jvec: gvec = get_edge_inner_product_deriv(ones)(efield) * cvector
+    D = grid.get_edge_inner_product_deriv(np.ones(grid.n_cells*3))(
+        np.ones(grid.n_edges)).toarray()        # edges x (3 n_cells)
+    Di = grid.get_edge_inner_product_deriv(np.ones(grid.n_cells))(
+        np.ones(grid.n_edges)).toarray()        # isotropic: edges x n_cells
+    off = [0, grid.n_edges_x, grid.n_edges_x + grid.n_edges_y]
+    rows_d = {}
+    for c in range(3):
+        for n, idx in enumerate(np.ndindex(*shp[c][::-1])):
+            idx = idx[::-1]                    # Fortran order: x fastest
+            row = D[off[c] + n]
+            for col in np.flatnonzero(row):
+                cc, cn = divmod(int(col), grid.n_cells)
+                cell = np.unravel_index(cn, grid.shape_cells, order='F')
+                v4 = 4*row[col]
+                if v4 != int(v4):
+                    notes.append("deriv entry is not a multiple of 1/4")
+                if cc != c:
+                    notes.append("deriv couples different directions")
+                rows_d.setdefault((cc+1, *map(int, cell)), []).append(
+                    [c+1, *map(int, idx), int(round(v4))])
+            # isotropic = sum of the three anisotropic blocks
+            if not np.array_equal(Di[off[c] + n],
+                                  sum(row[k*grid.n_cells:(k+1)*grid.n_cells]
+                                      for k in range(3))):
+                notes.append("isotropic derivative is not the sum of the "
+                             "three directional ones")
+    def pack(rows):
+        return [[k[0], k[1], k[2], k[3], v] for k, v in sorted(rows.items())]
+    return {"h": [list(map(int, a)) for a in h], "c": pack(rows_c),
+            "d": pack(rows_d), "obs": not notes, "notes": notes}
+
+
+def edge_part(rep, tier, rng):
+    n = 12 if tier == "quick" else 80
+    jobs = [([[rng.choice([1, 2, 3]) for _ in range(rng.choice([1, 2, 3]))]
+              for _ in range(3)], rng.randrange(10**6)) for _ in range(n)]
+    jobs[0] = ([[1, 2, 3], [2, 1], [3, 1, 2]], 0)
+    with mp.get_context("fork").Pool(C.NCPU) as pool:
+        insts = pool.map(_edgeavg, jobs)
+    tl = [{k: x[k] for k in ("h", "c", "d", "obs")} for x in insts]
+    bad = C.validate_batch(rep, "EdgeAvg", "EdgeAvg.cfg", tl, "edge maps",
+                           chunk=40)
+    rep.add_traces(len(insts) - len(bad))
+    for i, why in bad:
+        rep.violation(f"EXTRA:EdgeAvg:{why}:h={insts[i]['h']}",
+                      f"edge/cell maps on grid {insts[i]['h']}: {why}; "
+                      f"{insts[i]['notes'][:2]}", {"h": insts[i]["h"]})
+    # canaries: one wrong weight / one missing edge must be rejected
+    import copy
+    m1 = copy.deepcopy(tl[0])
+    m1["c"][0][4][0][4] += 1
+    m2 = copy.deepcopy(tl[0])
+    k = next(i for i, r in enumerate(m2["d"]) if len(r[4]) == 4)
+    m2["d"][k][4] = m2["d"][k][4][:3]
+    cb = {b[0] for b in C.validate_batch(rep, "EdgeAvg", "EdgeAvg.cfg",
+                                         [m1, m2], "canaries", count=False)}
+    for i in range(2):
+        rep.canary(i in cb)
+    if len(cb) != 2:
+        raise C.MachineryError("EdgeAvg canaries not rejected")
+    rep.cov["edgeavg_instances"] = len(insts)
+
+
 def run(tier, replay=None):
     rep = C.Report("EXTRA", tier)
     rng = random.Random(C.seed())
@@ -102,4 +200,5 @@ def run(tier, replay=None):
                       f"Model({t['mapping']}) history {t['ev']} is not a "
                       f"behaviour of ModelState.tla", t)
     rep.sample({"mapping": traces[0]["mapping"], "ev": traces[0]["ev"]})
+    edge_part(rep, tier, rng)
     return rep.finish()
